@@ -25,7 +25,7 @@ RULE = (
     "read-only and one with it as a non-contiguous view (2-D slots also Fortran-ordered), plus all slots read-only; the caller overwrites every returned buffer "
     "before the second run; interference: for every ordered pair of option variants (A, B) of 25 function families: A, B, A again must "
     "give A's result. (b) explicit-state BFS over histories of %d estimator specs "
-    "with the event alphabet {fit(D_a), fit(D_b), fit(D_c), predict, filter(D_a), grid, clone, set_params(**get_params()), switch to an "
+    "with the event alphabet {fit(D_a), fit(D_b), fit(D_c), predict, filter(D_a), grid, score(last dataset), scatter, profile, clone, set_params(**get_params()), switch to an "
     "alternative / back to the base parameter set through set_params, caller overwrites the arrays it passed earlier}, depth 3 (thorough 4), every history replayed on a fresh estimator (histories merged on (abstract state, concrete fingerprint) only for SplineCV), invariant: the "
     "fingerprint equals that of the shortest history with the same abstract state. (c) %d single inconsistencies that must raise. "
     "Non-trivial: every case."
@@ -73,7 +73,8 @@ SPECS = {
 VECTOR_SPECS = {"VectorSpline2D", "VectorSpline2D(force_coords)", "Vector"}
 NO_OVERWRITE = {"Linear", "Cubic"}
 DEDUPE = {"SplineCV"}
-EVENTS = ["fit_a", "fit_b", "fit_c", "predict", "filter_a", "grid", "clone", "params", "overwrite", "alt", "base"]
+EVENTS = ["fit_a", "fit_b", "fit_c", "predict", "filter_a", "grid", "clone", "params", "overwrite", "alt", "base", "score", "scatter", "profile"]
+OBSERVERS = ("predict", "grid", "score", "scatter", "profile")
 
 
 def _set_alt(spec, est, alt):
@@ -427,11 +428,21 @@ class Driver:
                 # parameters that differ from those of the last fit make predictions undefined until the next fit ("stale")
                 _set_alt(self.spec, est, ev == "alt")
                 self.pset = ev
-            elif self.stale and ev in ("predict", "grid"):
+            elif self.stale and ev in OBSERVERS:
                 try:
-                    est.predict(PROBE)
+                    self._observe(ev)
                 except Exception:  # noqa: BLE001
                     pass
+            elif ev in ("score", "scatter", "profile"):
+                # further observers (round 8): none of them may change the state; before fitting they must raise
+                if self.last is None:
+                    try:
+                        self._observe(ev)
+                        self.errors.append("%s before fit did not raise" % ev)
+                    except Exception:  # noqa: BLE001
+                        pass
+                else:
+                    self._observe(ev)
             elif ev == "predict":
                 if self.last is None:
                     try:
@@ -461,6 +472,22 @@ class Driver:
                     a[...] = 1e9
             else:
                 raise ValueError(ev)
+
+    def _observe(self, ev):
+        est = self.est
+        if ev == "predict":
+            return est.predict(PROBE)
+        if ev == "grid":
+            return est.grid(shape=(3, 3)) if self.last is not None else est.grid(shape=(2, 2), region=(0, 1, 0, 1))
+        if ev == "score":
+            # scored on the dataset of the last fit (inside the hull for Linear / Cubic, whose NaNs scikit-learn's metrics refuse)
+            coords, data = _dataset_args(self.last or "b", self.vec)
+            return est.score(coords, data)
+        if ev == "scatter":
+            return est.scatter(region=(0, 3, 0, 2), size=4, random_state=1)
+        if ev == "profile":
+            return est.profile((0, 0), (3, 2), 4)
+        raise ValueError(ev)
 
     @property
     def stale(self):
